@@ -15,11 +15,15 @@ EXTENDS OnChain, Json
 
 CONSTANTS Mode,        \* "revoked" | "honest"
           MaxBlocks,   \* adversarial blocks before the environment turns fair
-          MaxReload
+          MaxReload,
+          Layouts,     \* the shapes of second-stage transactions the cheater may use (see Layout)
+          MaxUnwind,   \* reorganisations that take confirmed transactions out of the chain again
+          Defect,      \* "none"; a planted defect of the monitor (spec mutants: TLC must refute them)
+          Features     \* "dup_hash": two pending HTLCs with one payment hash
 
 VARIABLES stage,   \* "start" | "react" | "idle" | "fair" | "done"
-          nextId, shape, blocks, reloads, hist
-mvars == <<ovars, stage, nextId, shape, blocks, reloads, hist>>
+          nextId, shape, blocks, reloads, unwinds, hist
+mvars == <<ovars, stage, nextId, shape, blocks, reloads, unwinds, hist>>
 
 H0 == 10
 ExpAt == H0 + 3            \* HTLC expiry: two blocks after the commitment confirms
@@ -28,9 +32,13 @@ Owner == 1                 \* whose commitment confirms (the cheater in revoked 
 Other == 0
 
 \* the HTLC outputs a commitment may carry; `pk`: the preimage is known to the receiver at closing
+\* (aggregated second-stage transactions need two HTLCs of one kind: a second claimed HTLC when the cheater's
+\*  shapes are explored)
 Menu == { [k |-> "offered", amt |-> 5000, hash |-> 1, pk |-> FALSE],
           [k |-> "received", amt |-> 6000, hash |-> 2, pk |-> TRUE],
           [k |-> "received", amt |-> 7000, hash |-> 3, pk |-> FALSE] }
+        \cup (IF "fee_between" \in Layouts THEN {[k |-> "received", amt |-> 8000, hash |-> 4, pk |-> TRUE]} ELSE {})
+        \cup (IF "dup_hash" \in Features THEN {[k |-> "received", amt |-> 7500, hash |-> 3, pk |-> FALSE]} ELSE {})
 
 RECURSIVE SeqOf(_)
 SeqOf(S) == IF S = {} THEN <<>> ELSE LET x == CHOOSE y \in S : \A z \in S : y.hash <= z.hash
@@ -47,11 +55,11 @@ KnownAtClose(S, n) == {h.hash : h \in {x \in S : x.pk /\ ((n = Owner /\ x.k = "r
 Rec(by, ins, nout, sweep) ==
   [by |-> by, ins |-> ins, wal |-> [k \in 1..Len(ins) |-> FALSE], nout |-> nout,
    outwal |-> [k \in 1..nout |-> sweep], feerate |-> 253, ok |-> TRUE, valid |-> TRUE, final |-> TRUE,
-   sweep |-> sweep, dup |-> FALSE, bh |-> height, own |-> 253, weight |-> 1, inval |-> 0, onrb |-> FALSE]
+   sweep |-> sweep, dup |-> FALSE, bh |-> height, own |-> 253, weight |-> 1, inval |-> 0, onrb |-> FALSE, old |-> FALSE]
 
 MCInit ==
   /\ OInit
-  /\ stage = "start" /\ nextId = 3 /\ shape \in SUBSET Menu /\ blocks = 0 /\ reloads = 0
+  /\ stage = "start" /\ nextId = 3 /\ shape \in SUBSET Menu /\ blocks = 0 /\ reloads = 0 /\ unwinds = 0
   /\ hist = <<>>
 
 Live2 == IF Mode = "revoked" THEN {Other} ELSE {0, 1}
@@ -61,28 +69,39 @@ MOpen ==
   /\ stage = "start" /\ par.kind = "none"
   /\ Open([kind |-> Mode, live |-> Live2, owner |-> Owner, delays |-> <<144, 144>>, anti_reorg |-> AR,
            chan_type |-> "static", h |-> H0, est |-> <<253, 253>>])
-  /\ UNCHANGED <<stage, nextId, shape, blocks, reloads, hist>>
+  /\ UNCHANGED <<stage, nextId, shape, blocks, reloads, unwinds, hist>>
 MBcastCommit ==
   /\ stage = "start" /\ par.kind # "none" /\ 2 \notin DOMAIN txs
   /\ Bcast(2, Rec(IF Mode = "revoked" THEN Cheater ELSE 3, <<<<1, 0>>>>, Cardinality(shape) + 2, FALSE))
-  /\ UNCHANGED <<stage, nextId, shape, blocks, reloads, hist>>
+  /\ UNCHANGED <<stage, nextId, shape, blocks, reloads, unwinds, hist>>
 MCommit ==
   /\ stage = "start" /\ 2 \in DOMAIN txs /\ ~HasCom
-  /\ Commit([tx |-> 2, owner |-> Owner, revoked |-> (Mode = "revoked"), h |-> H0 + 1, outs |-> ComOuts(shape),
+  /\ Commit([tx |-> 2, owner |-> Owner, revoked |-> (Mode = "revoked"), h |-> H0 + 1, outs |-> ComOuts(shape), gone |-> FALSE,
              known |-> <<KnownAtClose(shape, 0), KnownAtClose(shape, 1)>>])
-  /\ UNCHANGED <<stage, nextId, shape, blocks, reloads, hist>>
+  /\ UNCHANGED <<stage, nextId, shape, blocks, reloads, unwinds, hist>>
 MFirstBlock ==
   /\ stage = "start" /\ HasCom
   /\ Block(height + 1, {2})
   /\ stage' = "react"
-  /\ UNCHANGED <<nextId, shape, blocks, reloads, hist>>
+  /\ UNCHANGED <<nextId, shape, blocks, reloads, unwinds, hist>>
 
 \* ---- what an ideal monitor of node n has to claim right now
+\* planted defects (spec mutants).  "ignore_unpaired": second-stage transactions whose numbers of inputs
+\* and outputs differ are not recognised; "no_reissue": an output that was claimed once is never claimed
+\* again, whatever happened to that claim.
+SeenClaimable ==
+  IF Defect = "ignore_unpaired"
+    THEN {OP(r) : r \in {x \in Outs : x.k \in {"to_local", "offered", "received"}}}
+         \cup UNION {SecondStage(t) : t \in {u \in DOMAIN conf : txs[u].by = Cheater /\ u # com.tx /\ Len(txs[u].ins) = txs[u].nout}}
+    ELSE CheaterClaimable
+ClaimedBefore(n, o) == Defect = "no_reissue" /\ \E t \in DOMAIN txs : txs[t].by = n /\ ~txs[t].sweep /\ o \in ChanIns(t)
 Needs(n) ==
-  IF ~HasCom THEN {}
+  IF ~ComConf THEN {}
   ELSE IF com.revoked
-    THEN IF n = Victim THEN {o \in CheaterClaimable : ~Spent(o) /\ ~HasLiveClaim(n, o)} ELSE {}
-    ELSE {OP(r) : r \in {x \in Outs : /\ IsHtlc(x) /\ ~Spent(OP(x)) /\ ~HasLiveClaim(n, OP(x))
+    THEN IF n = Victim THEN {o \in SeenClaimable : ~Spent(o) /\ ~HasLiveClaim(n, o) /\ ~ClaimedBefore(n, o)} ELSE {}
+    \* ("first_match": of several HTLCs with one payment hash only the first is claimed with the preimage)
+    ELSE {OP(r) : r \in {x \in Outs : /\ IsHtlc(x) /\ ~Spent(OP(x)) /\ ~HasLiveClaim(n, OP(x)) /\ ~ClaimedBefore(n, OP(x))
+                                       /\ ((Defect = "first_match" /\ Inbound(n, x)) => (\A y \in Outs : (IsHtlc(y) /\ y.hash = x.hash) => x.v <= y.v))
                                        /\ \/ (Outbound(n, x) /\ height >= x.exp)
                                           \/ (Inbound(n, x) /\ x.hash \in known[n + 1])}}
 SeqOfOps(S) == LET RECURSIVE F(_)
@@ -93,19 +112,19 @@ SeqOfOps(S) == LET RECURSIVE F(_)
 \* observable from outside a checkpoint, so exploring one order loses nothing.
 Buried(t) == Confirmed(t) /\ height >= conf[t] + AR - 1
 Produced(n) ==
-  {OP(r) : r \in {x \in Outs : Main(n, x)}}
+  {OP(r) : r \in {x \in Outs : Main(n, x) /\ ComConf}}
   \cup {<<t, 0>> : t \in {u \in DOMAIN conf : txs[u].by = n /\ ~txs[u].sweep /\ u # com.tx}}
 Reportable(n) == {o \in Produced(n) : Buried(o[1])}
 Unswept(n) == {o \in handed[n + 1] : ~\E t \in DOMAIN txs : txs[t].sweep /\ o \in Ins(t)}
 BalItems(n) ==
-  IF ~HasCom \/ com.revoked THEN <<>>
+  IF ~ComConf \/ com.revoked THEN <<>>
   ELSE LET S == {r \in Outs : Mine(n, r) /\ ~HandedOver(n, r) /\ ~TakenByPeer(n, r)}
            RECURSIVE F(_)
            F(T) == IF T = {} THEN <<>> ELSE LET x == CHOOSE y \in T : \A z \in T : y.v <= z.v
                                             IN <<[k |-> "awaiting", amt |-> x.amt, hash |-> x.hash, hh |-> 0, src |-> ""]>> \o F(T \ {x})
        IN F(S)
 CanReact(n) == n \in par.live /\ Needs(n) # {}
-CanSpend(n) == n \in par.live /\ HasCom /\ Reportable(n) \ handed[n + 1] # {}
+CanSpend(n) == n \in par.live /\ ComConf /\ Reportable(n) \ handed[n + 1] # {}
 CanSweep(n) == n \in par.live /\ Unswept(n) # {}
 CanBal(n) == n \in par.live /\ bal[n + 1] # BalItems(n)
 First(P(_), n) == P(n) /\ \A m \in {0, 1} : m < n => ~P(m)
@@ -115,28 +134,28 @@ MReact(n) ==
   /\ stage = "react" /\ First(CanReact, n)
   /\ Bcast(nextId, Rec(n, SeqOfOps(Needs(n)), 1, FALSE))
   /\ nextId' = nextId + 1
-  /\ UNCHANGED <<stage, shape, blocks, reloads, hist>>
+  /\ UNCHANGED <<stage, shape, blocks, reloads, unwinds, hist>>
 MSpendable(n) ==
   /\ stage = "react" /\ None(CanReact) /\ First(CanSpend, n)
   /\ LET o == CHOOSE x \in Reportable(n) \ handed[n + 1] : TRUE IN
         Spendable(n, <<[op |-> o, confirmed |-> TRUE, amt |-> 1, real_amt |-> 1]>>)
-  /\ UNCHANGED <<stage, nextId, shape, blocks, reloads, hist>>
+  /\ UNCHANGED <<stage, nextId, shape, blocks, reloads, unwinds, hist>>
 MSweep(n) ==
   /\ stage = "react" /\ None(CanReact) /\ None(CanSpend) /\ First(CanSweep, n)
   /\ LET o == CHOOSE x \in Unswept(n) : TRUE IN Sweep(n, nextId, Rec(n, <<o>>, 1, TRUE), TRUE)
   /\ nextId' = nextId + 1
-  /\ UNCHANGED <<stage, shape, blocks, reloads, hist>>
+  /\ UNCHANGED <<stage, shape, blocks, reloads, unwinds, hist>>
 MBal(n) ==
   /\ stage = "react" /\ None(CanReact) /\ None(CanSpend) /\ None(CanSweep) /\ First(CanBal, n)
   /\ Balances(n, BalItems(n))
-  /\ UNCHANGED <<stage, nextId, shape, blocks, reloads, hist>>
+  /\ UNCHANGED <<stage, nextId, shape, blocks, reloads, unwinds, hist>>
 
 Settled(n) == ~CanReact(n) /\ ~CanSpend(n) /\ ~CanSweep(n) /\ ~CanBal(n)
 MCheck ==
   /\ stage = "react" /\ \A n \in par.live : Settled(n)
   /\ Checkpoint(height)
   /\ stage' = IF blocks >= MaxBlocks THEN "fair" ELSE "idle"
-  /\ UNCHANGED <<nextId, shape, blocks, reloads, hist>>
+  /\ UNCHANGED <<nextId, shape, blocks, reloads, unwinds, hist>>
 
 \* ---- the adversarial environment
 \* second-stage transactions the cheater may get confirmed now
@@ -144,40 +163,109 @@ CheatOpts == IF ~HasCom \/ ~com.revoked THEN {}
              ELSE {r \in Outs : /\ IsHtlc(r) /\ ~Spent(OP(r))
                                 /\ \/ (r.k = "offered" /\ height >= r.exp)
                                    \/ (r.k = "received" /\ r.hash \in com.known[Owner + 1])}
+\* a transaction can be mined only with (or after) its parents, and never once a parent is forgotten
 Minable == {t \in DOMAIN txs : Live(t)}
 ConflictFree(ids) == \A a, b \in ids : a # b => Ins(a) \cap Ins(b) = {}
+ParentsOK(ids) == \A t \in ids : \A o \in Ins(t) : o[1] \in DOMAIN txs => (Confirmed(o[1]) \/ o[1] \in ids)
+\* The shapes of the cheater's second-stage transaction for the HTLC outpoints hs (a sequence): where its
+\* own (foreign) inputs F stand and how many outputs there are.  [ins, wal, nout]; the outputs at the
+\* positions of the HTLC inputs are the HTLCs' delayed outputs, all others are the cheater's own.
+Foreign(k) == <<0, k>>
+Layout(name, hs, id) ==
+  LET n == Len(hs)
+      F == <<Foreign(2 * id)>>
+      G == <<Foreign(2 * id + 1)>>
+      no == [k \in 1..n |-> FALSE]
+  IN CASE name = "plain"            -> [ins |-> hs, wal |-> no, nout |-> n]
+       [] name = "fee_after"        -> [ins |-> hs \o F, wal |-> no \o <<TRUE>>, nout |-> n]
+       [] name = "fee_after_change" -> [ins |-> hs \o F, wal |-> no \o <<TRUE>>, nout |-> n + 1]
+       [] name = "fee_before"       -> [ins |-> F \o hs, wal |-> <<TRUE>> \o no, nout |-> n + 1]
+       [] name = "fee_between"      -> [ins |-> <<hs[1]>> \o F \o Tail(hs), wal |-> <<FALSE, TRUE>> \o Tail(no), nout |-> n + 1]
+       [] name = "extra_out"        -> [ins |-> hs, wal |-> no, nout |-> n + 2]
+       [] name = "two_fees"         -> [ins |-> F \o hs \o G, wal |-> <<TRUE>> \o no \o <<TRUE>>, nout |-> n + 1]
+\* for the driver script: per input / output the position (1-based) of the HTLC in hs, 0 = the cheater's own
+LayoutIns(l, hs) == [k \in 1..Len(l.ins) |-> IF l.wal[k] THEN 0 ELSE CHOOSE j \in 1..Len(hs) : hs[j] = l.ins[k]]
+LayoutOuts(l, hs) == [k \in 1..l.nout |-> IF k <= Len(l.ins) /\ ~l.wal[k] THEN CHOOSE j \in 1..Len(hs) : hs[j] = l.ins[k] ELSE 0]
+HashOf(o) == (CHOOSE r \in Outs : OP(r) = o).hash
 \* one adversarial block: the cheater's second-stage transaction for the subset S confirms together
 \* with the transactions of the senders in W (newest version of each claim)
-MBlockAdv(W, S) ==
+MBlockAdv(W, S, L) ==
   /\ stage = "idle" /\ blocks < MaxBlocks
   /\ S \subseteq CheatOpts
-  /\ LET cheatTx == IF S = {} THEN {} ELSE {nextId}
+  /\ (S = {} => L = "plain") /\ (L = "fee_between" => Cardinality(S) >= 2)
+  \* (both signatures on an HTLC transaction commit to nLockTime: one transaction holds HTLC-success
+  \*  inputs only or HTLC-timeout inputs of one expiry only; the "plain" shape with a mixed set stands for
+  \*  separate transactions in one block)
+  /\ (L # "plain" => \A a, b \in S : a.k = b.k)
+  /\ LET hs == SeqOfOps({OP(r) : r \in S})
+         lay == Layout(L, hs, nextId)
+         cheatTx == IF S = {} THEN {} ELSE {nextId}
          txs1 == IF S = {} THEN txs
                  ELSE [x \in DOMAIN txs \cup {nextId} |->
-                         IF x = nextId THEN Rec(Cheater, SeqOfOps({OP(r) : r \in S}), Cardinality(S), FALSE) ELSE txs[x]]
+                         IF x = nextId THEN [Rec(Cheater, lay.ins, lay.nout, FALSE) EXCEPT !.wal = lay.wal] ELSE txs[x]]
          cand == {t \in Minable : txs[t].by \in W /\ \A o \in Ins(t) : o \notin {OP(r) : r \in S}}
      IN \E ids \in SUBSET cand :
-          /\ ConflictFree(ids)
-          /\ \A t \in cand \ ids : \E u \in ids : Ins(t) \cap Ins(u) # {}       \* maximal
+          /\ ConflictFree(ids) /\ ParentsOK(ids)
+          /\ \A t \in cand \ ids : (\E u \in ids : Ins(t) \cap Ins(u) # {}) \/ ~ParentsOK(ids \cup {t})       \* maximal
           /\ height' = height + 1 /\ phase' = "op"
           /\ txs' = txs1
           /\ conf' = [x \in DOMAIN conf \cup ids \cup cheatTx |-> IF x \in DOMAIN conf THEN conf[x] ELSE height + 1]
           /\ starved' = <<starved[1] \/ LeftOut(0, ids), starved[2] \/ LeftOut(1, ids)>>
           /\ UNCHANGED <<par, com, known, handed, bal, asked, est, gaveup>> /\ rb' = NoRb
+          /\ hist' = Append(hist, [op |-> "block", who |-> W, cheat |-> {r.hash : r \in S}, h |-> height + 1,
+                                   seq |-> [k \in 1..Len(hs) |-> HashOf(hs[k])], layout |-> L,
+                                   ins |-> IF S = {} THEN <<>> ELSE LayoutIns(lay, hs),
+                                   outs |-> IF S = {} THEN <<>> ELSE LayoutOuts(lay, hs)])
   /\ nextId' = IF S = {} THEN nextId ELSE nextId + 1
   /\ blocks' = blocks + 1 /\ stage' = "react"
-  /\ hist' = Append(hist, [op |-> "block", who |-> W, cheat |-> {r.hash : r \in S}, h |-> height + 1])
-  /\ UNCHANGED <<shape, reloads>>
+  /\ UNCHANGED <<shape, reloads, unwinds>>
+
+\* The chain is reorganised down to just below the commitment ("commit"), the cheater's lowest
+\* second-stage transaction ("stage2") or the victim's / nodes' lowest confirmed claim ("claim"), `x` blocks
+\* further if there is room; with `evict` the network forgets every claim of a node under test that hangs
+\* on a transaction that left the chain.  The commitment and the cheater's transactions are mined again by
+\* MBlockBack or, at the latest, by the fair blocks -- at the same height or a later one.
+UnwindTo(target) ==
+  LET hts == IF target = "commit" THEN {conf[com.tx]}
+             ELSE IF target = "stage2" THEN {conf[t] : t \in {u \in DOMAIN conf : txs[u].by = Cheater /\ u # com.tx}}
+             ELSE {conf[t] : t \in {u \in DOMAIN conf : txs[u].by \in par.live /\ ~txs[u].sweep}}
+  IN IF hts = {} THEN -1 ELSE Min(hts) - 1
+MUnwind(target, x, evict) ==
+  /\ stage = "idle" /\ unwinds < MaxUnwind /\ ComConf
+  /\ UnwindTo(target) >= H0
+  /\ LET h == UnwindTo(target) - x
+         gone == {t \in DOMAIN conf : conf[t] > h}
+         ev == IF evict THEN {t \in DOMAIN txs : /\ txs[t].by \in par.live /\ ~txs[t].sweep /\ (t \notin DOMAIN conf \/ t \in gone)
+                                                  /\ \E o \in Ins(t) : o[1] \in gone \/ (t \notin gone /\ Spent(o) /\ SpenderOf(o) \in gone)}
+               ELSE {}
+     IN /\ h >= H0
+        /\ Rewind(h, ev)
+        /\ hist' = Append(hist, [op |-> "unwind", target |-> target, extra |-> x, evict |-> evict, h |-> h])
+  /\ unwinds' = unwinds + 1 /\ stage' = "react"
+  /\ UNCHANGED <<nextId, shape, blocks, reloads>>
+\* the transactions that left the chain come back (those of the cheater / the harness; with W the nodes' too)
+MBlockBack(W) ==
+  /\ stage = "idle" /\ unwinds > 0
+  /\ LET back == {t \in Minable : txs[t].by \in {Cheater, 3}}
+         cand == {t \in Minable : txs[t].by \in W}
+     IN /\ back # {}
+        /\ \E ids \in SUBSET cand :
+             /\ ConflictFree(ids \cup back) /\ ParentsOK(ids \cup back)
+             /\ \A t \in cand \ ids : (\E u \in ids \cup back : Ins(t) \cap Ins(u) # {}) \/ ~ParentsOK(ids \cup back \cup {t})
+             /\ Block(height + 1, ids \cup back)
+  /\ stage' = "react"
+  /\ hist' = Append(hist, [op |-> "back", who |-> W, h |-> height + 1])
+  /\ UNCHANGED <<nextId, shape, blocks, reloads, unwinds>>
 
 \* a fair block: everything minable confirms (newest first)
 MBlockFair ==
   /\ stage = "fair"
   /\ \E ids \in SUBSET Minable :
-        /\ ConflictFree(ids)
-        /\ \A t \in Minable \ ids : \E u \in ids : Ins(t) \cap Ins(u) # {}
+        /\ ConflictFree(ids) /\ ParentsOK(ids)
+        /\ \A t \in Minable \ ids : (\E u \in ids : Ins(t) \cap Ins(u) # {}) \/ ~ParentsOK(ids \cup {t})
         /\ Block(height + 1, ids)
   /\ stage' = "react"
-  /\ UNCHANGED <<nextId, shape, blocks, reloads, hist>>
+  /\ UNCHANGED <<nextId, shape, blocks, reloads, unwinds, hist>>
 
 \* a preimage turns up after the close (honest mode)
 MPreimage(n, r) ==
@@ -186,22 +274,22 @@ MPreimage(n, r) ==
   /\ Preimage(n, r.hash)
   /\ stage' = "react"
   /\ hist' = Append(hist, [op |-> "preimage", node |-> n, hash |-> r.hash])
-  /\ UNCHANGED <<nextId, shape, blocks, reloads>>
+  /\ UNCHANGED <<nextId, shape, blocks, reloads, unwinds>>
 
 MReload(n) ==
   /\ stage = "idle" /\ n \in par.live /\ reloads < MaxReload
   /\ Silent /\ reloads' = reloads + 1
   /\ hist' = Append(hist, [op |-> "reload", node |-> n])
-  /\ UNCHANGED <<stage, nextId, shape, blocks>>
+  /\ UNCHANGED <<stage, nextId, shape, blocks, unwinds>>
 
-AllDone == /\ HasCom /\ Minable = {}
+AllDone == /\ ComConf /\ Minable = {}
            /\ \A n \in par.live : Settled(n) /\ Len(bal[n + 1]) = 0 /\ Produced(n) \subseteq handed[n + 1]
            /\ \A r \in Outs : (IsHtlc(r) /\ ~Spent(OP(r))) => \A n \in par.live : ~Outbound(n, r) /\ ~(com.revoked /\ n = Victim)
 MFinal ==
   /\ stage = "fair" /\ phase = "check" /\ AllDone
   /\ Final([unswept |-> 0, mempool_left |-> <<>>])
   /\ stage' = "done"
-  /\ UNCHANGED <<nextId, shape, blocks, reloads, hist>>
+  /\ UNCHANGED <<nextId, shape, blocks, reloads, unwinds, hist>>
 MDone == stage = "done" /\ UNCHANGED mvars
 
 Senders == IF Mode = "revoked" THEN {{}, {Other}} ELSE {{}, {0}, {1}, {0, 1}}
@@ -209,16 +297,18 @@ MCNext ==
   \/ MOpen \/ MBcastCommit \/ MCommit \/ MFirstBlock
   \/ \E n \in {0, 1} : MReact(n) \/ MSpendable(n) \/ MSweep(n) \/ MBal(n) \/ MReload(n)
   \/ MCheck
-  \/ \E W \in Senders : \E S \in SUBSET (IF HasCom THEN Outs ELSE {}) : MBlockAdv(W, S)
+  \/ \E W \in Senders : \E S \in SUBSET (IF HasCom THEN Outs ELSE {}) : \E L \in Layouts : MBlockAdv(W, S, L)
+  \/ \E target \in {"commit", "stage2", "claim"} : \E x \in {0, 1} : \E evict \in BOOLEAN : MUnwind(target, x, evict)
+  \/ \E W \in Senders : MBlockBack(W)
   \/ MBlockFair
   \/ \E n \in {0, 1} : \E r \in (IF HasCom THEN Outs ELSE {}) : MPreimage(n, r)
   \/ MFinal \/ MDone
 
 MCSpec == MCInit /\ [][MCNext]_mvars
 
-View == <<ovars, stage, nextId, shape, blocks, reloads>>
+View == <<ovars, stage, nextId, shape, blocks, reloads, unwinds>>
 \* bounded liveness: under fair mining a run is over within a few blocks
-Bounded == height <= H0 + 1 + MaxBlocks + 4 * AR + 6
+Bounded == height <= H0 + 1 + MaxBlocks + 4 * AR + 6 + 4 * MaxUnwind
 
 EmitScripts ==
   stage = "done" =>
